@@ -15,6 +15,17 @@ namespace Reclass
 
 /-! ## 1. JSON text and `raw_string` -/
 
+namespace TextL
+-- Decidable equality of errors, to check concrete outcomes by kernel evaluation.
+deriving instance DecidableEq for Err
+
+/-- The error of an outcome, if any (for `decide +kernel` checks of concrete runs; `Value` has
+no decidable equality, so successful outcomes are compared through their JSON text). -/
+def errOf {α : Type} : R α → Option Err
+  | .error e => some e
+  | .ok _ => none
+end TextL
+
 mutual
 /-- `jsonOf` succeeds on every closed value. -/
 theorem jsonOf_closed : ∀ (v : Value), Closed v → ∃ t, jsonOf v = .ok t
@@ -719,5 +730,446 @@ theorem noPanicInv : ∀ n, NoPanicInv n := by
       slice := slice_np ih
       strLoop := strLoop_np ih
       sliceFinish := sliceFinish_np ih }
+
+/-! ## 3. `Value::merge` looks at the resolve state only through `cur` -/
+
+theorem curKey_congr {st st' : RState} (h : st.cur = st'.cur) : st.curKey = st'.curKey := by
+  simp [RState.curKey, h]
+
+theorem mergeNonVl_cur {a b : Value} {st st' : RState} (h : st.cur = st'.cur) :
+    mergeNonVl a b st = mergeNonVl a b st' := by
+  have hk := curKey_congr h
+  cases a <;> cases b <;> simp [mergeNonVl, hk]
+
+mutual
+theorem flatVl_cur : ∀ (l : List Value) (base : Value) (st st' : RState), st.cur = st'.cur →
+    flatVl l base st = flatVl l base st'
+  | [], base, st, st', _ => by simp [flatVl]
+  | v :: rest, base, st, st', h => by
+    simp only [flatVl, mergeV_cur base v st st' h]
+    cases mergeV base v st' with
+    | error e => rfl
+    | ok b => exact flatVl_cur rest b st st' h
+theorem mergeV_cur : ∀ (self other : Value) (st st' : RState), st.cur = st'.cur →
+    mergeV self other st = mergeV self other st'
+  | self, .null, st, st', _ => by simp [mergeV]
+  | self, .vl l, st, st', h => by
+    simp only [mergeV, flatVl_cur l .null st st' h]
+    cases flatVl l .null st' with
+    | error e => rfl
+    | ok o => exact mergeNonVl_cur h
+  | self, .map es ck ok, st, st', h => by simp only [mergeV]; exact mergeNonVl_cur h
+  | self, .seq l, st, st', h => by simp only [mergeV]; exact mergeNonVl_cur h
+  | self, .str _, st, st', h => by simp only [mergeV]; exact mergeNonVl_cur h
+  | self, .bool _, st, st', h => by simp only [mergeV]; exact mergeNonVl_cur h
+  | self, .num _, st, st', h => by simp only [mergeV]; exact mergeNonVl_cur h
+  | self, .lit _, st, st', h => by simp only [mergeV]; exact mergeNonVl_cur h
+end
+
+theorem mergeNonVl_ok_state {a b r : Value} {st st' : RState}
+    (h : mergeNonVl a b st = .ok r) : mergeNonVl a b st' = .ok r := by
+  cases a <;> cases b <;> simp_all [mergeNonVl, Value.isMap, Value.isSeq]
+
+mutual
+/-- A successful merge does not depend on the resolve state at all. -/
+theorem flatVl_ok_state : ∀ (l : List Value) (base : Value) (st st' : RState) (r : Value),
+    flatVl l base st = .ok r → flatVl l base st' = .ok r
+  | [], base, st, st', r, h => by simpa [flatVl] using h
+  | v :: rest, base, st, st', r, h => by
+    simp only [flatVl] at h ⊢
+    cases h1 : mergeV base v st with
+    | error e => simp [h1] at h
+    | ok b =>
+      simp only [h1] at h
+      rw [mergeV_ok_state base v st st' b h1]
+      exact flatVl_ok_state rest b st st' r h
+theorem mergeV_ok_state : ∀ (self other : Value) (st st' : RState) (r : Value),
+    mergeV self other st = .ok r → mergeV self other st' = .ok r
+  | self, .null, st, st', r, h => by simpa [mergeV] using h
+  | self, .vl l, st, st', r, h => by
+    simp only [mergeV] at h ⊢
+    cases h1 : flatVl l .null st with
+    | error e => simp [h1] at h
+    | ok o =>
+      simp only [h1] at h
+      rw [flatVl_ok_state l .null st st' o h1]
+      exact mergeNonVl_ok_state h
+  | self, .map es ck ok, st, st', r, h => by simp only [mergeV] at h ⊢; exact mergeNonVl_ok_state h
+  | self, .seq l, st, st', r, h => by simp only [mergeV] at h ⊢; exact mergeNonVl_ok_state h
+  | self, .str _, st, st', r, h => by simp only [mergeV] at h ⊢; exact mergeNonVl_ok_state h
+  | self, .bool _, st, st', r, h => by simp only [mergeV] at h ⊢; exact mergeNonVl_ok_state h
+  | self, .num _, st, st', r, h => by simp only [mergeV] at h ⊢; exact mergeNonVl_ok_state h
+  | self, .lit _, st, st', r, h => by simp only [mergeV] at h ⊢; exact mergeNonVl_ok_state h
+end
+
+/-- Swapping one layer for another that interpolates to the same value (with the same `cur`)
+does not change the outcome of the layer loop.  Fuel index: the loop starts with
+`n + 1 + pre.length`, so the layer in question is interpolated with fuel `n`. -/
+theorem interpVl_swap_layer {n : Nat} {root : Mapping} {st s1 s2 : RState} {a b x : Value}
+    (ha : interp n root a st = .ok (x, s1)) (hb : interp n root b st = .ok (x, s2))
+    (hc : s1.cur = s2.cur) (post : List Value) :
+    ∀ (pre : List Value) (r0 : Value),
+      interpVl (n + 1 + pre.length) root (pre ++ a :: post) r0 st =
+      interpVl (n + 1 + pre.length) root (pre ++ b :: post) r0 st := by
+  intro pre
+  induction pre with
+  | nil =>
+    intro r0
+    simp only [List.length_nil, Nat.add_zero, List.nil_append, interpVl, ha, hb,
+      mergeV_cur r0 x s1 s2 hc]
+  | cons p pre ih =>
+    intro r0
+    have : n + 1 + (p :: pre).length = (n + 1 + pre.length) + 1 := by simp; omega
+    rw [this]
+    simp only [List.cons_append, interpVl]
+    cases interp (n + 1 + pre.length) root p st with
+    | error e => rfl
+    | ok q =>
+      obtain ⟨y, s⟩ := q
+      simp only
+      cases mergeV r0 y s with
+      | error e => rfl
+      | ok r1 => exact ih r1
+
+/-! ## 4. Canonical flag lists -/
+
+/-- The members of `s` among `ks`, in the order of `ks`: the flag list `Mapping::interpolate` /
+`Mapping::flattened` build (into a fresh mapping) from the flag set `s` of a mapping with
+distinct keys `ks`. -/
+def flagsOf (s ks : List Key) : List Key := ks.filter (fun k => decide (k ∈ s))
+
+mutual
+/-- Canonical: in every mapping the two flag lists are exactly the flagged keys in entry order. -/
+def Canon : Value → Prop
+  | .map es ck ok => CanonEs es ∧ ck = flagsOf ck (keys es) ∧ ok = flagsOf ok (keys es)
+  | .seq l => CanonL l
+  | .vl l => CanonL l
+  | _ => True
+def CanonL : List Value → Prop
+  | [] => True
+  | v :: vs => Canon v ∧ CanonL vs
+def CanonEs : List (Key × Value) → Prop
+  | [] => True
+  | (_, v) :: es => Canon v ∧ CanonEs es
+end
+
+theorem canonEs_append {es : List (Key × Value)} {k : Key} {v : Value} :
+    CanonEs (es ++ [(k, v)]) ↔ CanonEs es ∧ Canon v := by
+  induction es with
+  | nil => simp [CanonEs]
+  | cons e es ih =>
+    obtain ⟨k', v'⟩ := e
+    simp only [List.cons_append, CanonEs, ih, and_assoc]
+
+theorem flagsOf_idem (s ks : List Key) : flagsOf (flagsOf s ks) ks = flagsOf s ks := by
+  unfold flagsOf
+  apply List.filter_congr
+  intro x hx
+  simp [List.mem_filter, hx]
+
+theorem flag_append {k : Key} {s acc : List Key} (rest : List Key) (hk : k ∉ acc) :
+    (if decide (k ∈ s) = true then setInsert k acc else acc) ++ flagsOf s rest =
+      acc ++ flagsOf s (k :: rest) := by
+  by_cases h : k ∈ s
+  · simp [h, setInsert, hk, flagsOf]
+  · simp [h, flagsOf]
+
+theorem flag_subset {k : Key} {s acc : List Key} {es : List (Key × Value)} {v : Value}
+    (h : ∀ x ∈ acc, x ∈ keys es) :
+    ∀ x ∈ (if decide (k ∈ s) = true then setInsert k acc else acc), x ∈ keys (es ++ [(k, v)]) := by
+  intro x hx
+  simp only [keys, List.map_append, List.map_cons, List.map_nil, List.mem_append,
+    List.mem_singleton]
+  split at hx
+  · rcases mem_setInsert.1 hx with h' | h'
+    · exact Or.inl (h x h')
+    · exact Or.inr h'
+  · exact Or.inl (h x hx)
+
+mutual
+/-- `flattened` of closed, well-formed, canonical data returns it unchanged (syntactically). -/
+theorem flat_canon : ∀ (v : Value) (st : RState), Closed v → WF v → Canon v → flat v st = .ok v
+  | .vl l, st, hc, _, _ => by simp [Closed] at hc
+  | .str _, st, hc, _, _ => by simp [Closed] at hc
+  | .null, st, _, _, _ => by simp only [flat]
+  | .bool _, st, _, _, _ => by simp only [flat]
+  | .num _, st, _, _, _ => by simp only [flat]
+  | .lit _, st, _, _, _ => by simp only [flat]
+  | .seq l, st, hc, hv, hk => by
+    simp only [Closed] at hc
+    simp only [WF] at hv
+    simp only [Canon] at hk
+    simp only [flat, flatL_canon l st hc hv hk]
+  | .map es ck ok, st, hc, hv, hk => by
+    simp only [Closed] at hc
+    simp only [WF] at hv
+    simp only [Canon] at hk
+    have := flatEs_canon es ck ok st {} hc hv.1 hk.1 (by simpa using hv.2) (by simp) (by simp)
+    simp only [flat, this, Mapping.toValue, List.nil_append]
+    rw [← hk.2.1, ← hk.2.2]
+theorem flatL_canon : ∀ (l : List Value) (st : RState), ClosedL l → WFL l → CanonL l →
+    flatL l st = .ok l
+  | [], st, _, _, _ => by simp only [flatL]
+  | v :: vs, st, hc, hl, hk => by
+    simp only [ClosedL] at hc
+    simp only [WFL] at hl
+    simp only [CanonL] at hk
+    simp only [flatL, flat_canon v st hc.1 hl.1 hk.1, flatL_canon vs st hc.2 hl.2 hk.2]
+theorem flatEs_canon : ∀ (es : List (Key × Value)) (ck ok : List Key) (st : RState) (acc : Mapping),
+    ClosedEs es → WFEs es → CanonEs es → (keys acc.es ++ keys es).Nodup →
+    (∀ x ∈ acc.ck, x ∈ keys acc.es) → (∀ x ∈ acc.ok, x ∈ keys acc.es) →
+    flatEs es ck ok st acc =
+      .ok ⟨acc.es ++ es, acc.ck ++ flagsOf ck (keys es), acc.ok ++ flagsOf ok (keys es)⟩
+  | [], ck, ok, st, acc, _, _, _, _, _, _ => by simp [flatEs, flagsOf]
+  | (k, v) :: rest, ck, ok, st, acc, hc, hes, hk, hnd, hck, hok => by
+    simp only [ClosedEs] at hc
+    simp only [WFEs] at hes
+    simp only [CanonEs] at hk
+    have hstep := nodup_keys_step (by simpa [keys] using hnd : (keys acc.es ++ k :: keys rest).Nodup)
+    simp only [flatEs, flat_canon v st hc.1 hes.2.1 hk.1,
+      insertImpl_fresh_eq acc v _ _ hes.1 hstep.1]
+    rw [flatEs_canon rest ck ok st _ hc.2 hes.2.2 hk.2 (by simpa [keys] using hstep.2)
+      (flag_subset hck) (flag_subset hok)]
+    simp only [List.append_assoc, List.singleton_append]
+    rw [flag_append (keys rest) (fun h => hstep.1 (hck k h)),
+      flag_append (keys rest) (fun h => hstep.1 (hok k h))]
+    simp [keys]
+end
+
+mutual
+/-- `interpolate` of closed, well-formed, canonical data returns it unchanged (syntactically)
+and leaves the resolve state alone, given fuel at least its size. -/
+theorem interp_canon : ∀ (v : Value) (n : Nat) (root : Mapping) (st : RState), Closed v → WF v →
+    Canon v → size v ≤ n → interp n root v st = .ok (v, st)
+  | .vl l, n, root, st, hc, _, _, _ => by simp [Closed] at hc
+  | .str _, n, root, st, hc, _, _, _ => by simp [Closed] at hc
+  | .null, n, root, st, _, _, _, hn => by
+    cases n with
+    | zero => simp [size] at hn
+    | succ n => simp only [interp]
+  | .bool _, n, root, st, _, _, _, hn => by
+    cases n with
+    | zero => simp [size] at hn
+    | succ n => simp only [interp]
+  | .num _, n, root, st, _, _, _, hn => by
+    cases n with
+    | zero => simp [size] at hn
+    | succ n => simp only [interp]
+  | .lit _, n, root, st, _, _, _, hn => by
+    cases n with
+    | zero => simp [size] at hn
+    | succ n => simp only [interp]
+  | .seq l, n, root, st, hc, hv, hk, hn => by
+    cases n with
+    | zero => simp [size] at hn
+    | succ n =>
+      simp only [Closed] at hc
+      simp only [WF] at hv
+      simp only [Canon] at hk
+      simp only [size] at hn
+      simp only [interp, interpL_canon l n root 0 st hc hv hk (by omega)]
+  | .map es ck ok, n, root, st, hc, hv, hk, hn => by
+    cases n with
+    | zero => simp [size] at hn
+    | succ n =>
+      simp only [Closed] at hc
+      simp only [WF] at hv
+      simp only [Canon] at hk
+      simp only [size] at hn
+      have := interpEs_canon es n root ck ok st {} hc hv.1 hk.1 (by simpa using hv.2) (by simp)
+        (by simp) (by omega)
+      simp only [interp, this, Mapping.toValue, List.nil_append]
+      rw [← hk.2.1, ← hk.2.2]
+theorem interpL_canon : ∀ (l : List Value) (n : Nat) (root : Mapping) (idx : Nat) (st : RState),
+    ClosedL l → WFL l → CanonL l → sizeL l ≤ n → interpL n root l idx st = .ok l
+  | [], n, root, idx, st, _, _, _, hn => by
+    cases n with
+    | zero => simp [sizeL] at hn
+    | succ n => simp only [interpL]
+  | v :: vs, n, root, idx, st, hc, hl, hk, hn => by
+    cases n with
+    | zero => simp [sizeL] at hn
+    | succ n =>
+      simp only [ClosedL] at hc
+      simp only [WFL] at hl
+      simp only [CanonL] at hk
+      simp only [sizeL] at hn
+      simp only [interpL, interp_canon v n root _ hc.1 hl.1 hk.1 (by omega),
+        interpL_canon vs n root (idx + 1) st hc.2 hl.2 hk.2 (by omega)]
+theorem interpEs_canon : ∀ (es : List (Key × Value)) (n : Nat) (root : Mapping) (ck ok : List Key)
+    (st : RState) (acc : Mapping), ClosedEs es → WFEs es → CanonEs es →
+    (keys acc.es ++ keys es).Nodup →
+    (∀ x ∈ acc.ck, x ∈ keys acc.es) → (∀ x ∈ acc.ok, x ∈ keys acc.es) → sizeEs es ≤ n →
+    interpEs n root es ck ok st acc =
+      .ok ⟨acc.es ++ es, acc.ck ++ flagsOf ck (keys es), acc.ok ++ flagsOf ok (keys es)⟩
+  | [], n, root, ck, ok, st, acc, _, _, _, _, _, _, hn => by
+    cases n with
+    | zero => simp [sizeEs] at hn
+    | succ n => simp [interpEs, flagsOf]
+  | (k, v) :: rest, n, root, ck, ok, st, acc, hc, hes, hk, hnd, hck, hok, hn => by
+    cases n with
+    | zero => simp [sizeEs] at hn
+    | succ n =>
+      simp only [ClosedEs] at hc
+      simp only [WFEs] at hes
+      simp only [CanonEs] at hk
+      simp only [sizeEs] at hn
+      have hstep := nodup_keys_step (by simpa [keys] using hnd : (keys acc.es ++ k :: keys rest).Nodup)
+      simp only [interpEs, interp_canon v n root _ hc.1 hes.2.1 hk.1 (by omega),
+        flat_canon v _ hc.1 hes.2.1 hk.1, insertImpl_fresh_eq acc v _ _ hes.1 hstep.1]
+      rw [interpEs_canon rest n root ck ok st _ hc.2 hes.2.2 hk.2 (by simpa [keys] using hstep.2)
+        (flag_subset hck) (flag_subset hok) (by omega)]
+      simp only [List.append_assoc, List.singleton_append]
+      rw [flag_append (keys rest) (fun h => hstep.1 (hck k h)),
+        flag_append (keys rest) (fun h => hstep.1 (hok k h))]
+      simp [keys]
+end
+
+/-- Exact shape of what `Mapping::interpolate` returns for a well-formed entry list: the new
+entries are canonical, keys are appended in order, the flag lists grow by the flagged keys in
+entry order. -/
+structure CanonInv (n : Nat) : Prop where
+  interp : ∀ (root : Mapping) (v : Value) (st : RState) (r : Value) (st' : RState),
+    WF root.toValue → WF v → interp n root v st = .ok (r, st') → Canon r
+  interpL : ∀ (root : Mapping) (l : List Value) (idx : Nat) (st : RState) (r : List Value),
+    WF root.toValue → WFL l → interpL n root l idx st = .ok r → CanonL r
+  interpEs : ∀ (root : Mapping) (es : List (Key × Value)) (ck ok : List Key) (st : RState)
+    (acc m : Mapping), WF root.toValue → WFEs es → (keys acc.es ++ keys es).Nodup →
+    CanonEs acc.es → (∀ x ∈ acc.ck, x ∈ keys acc.es) → (∀ x ∈ acc.ok, x ∈ keys acc.es) →
+    interpEs n root es ck ok st acc = .ok m →
+    CanonEs m.es ∧ keys m.es = keys acc.es ++ keys es ∧
+      m.ck = acc.ck ++ flagsOf ck (keys es) ∧ m.ok = acc.ok ++ flagsOf ok (keys es)
+  tokRender : ∀ (root : Mapping) (t : Token) (st : RState) (r : Value) (st' : RState),
+    WF root.toValue → tokRender n root t st = .ok (r, st') → Canon r
+
+theorem canonInv : ∀ n, CanonInv n := by
+  intro n
+  induction n with
+  | zero => constructor <;> intros <;> simp_all [interp, interpL, interpEs, tokRender]
+  | succ n ih =>
+    refine ⟨?_, ?_, ?_, ?_⟩
+    · -- interp
+      intro root v st r st' hr hv h
+      cases v with
+      | str s =>
+        simp only [Reclass.interp] at h
+        cases h1 : Token.parse s with
+        | error e => simp [h1] at h
+        | ok o =>
+          cases o with
+          | none =>
+            simp only [h1, Except.ok.injEq, Prod.mk.injEq] at h
+            rw [← h.1]; simp [Canon]
+          | some t => simp only [h1] at h; exact ih.tokRender _ _ _ _ _ hr h
+      | map es ck ok =>
+        simp only [Reclass.interp] at h
+        cases h1 : Reclass.interpEs n root es ck ok st {} with
+        | error e => simp [h1] at h
+        | ok m =>
+          simp only [h1, Except.ok.injEq, Prod.mk.injEq] at h
+          rw [← h.1]
+          simp only [WF] at hv
+          obtain ⟨a, b, c, d⟩ := ih.interpEs root es ck ok st {} m hr hv.1 (by simpa using hv.2)
+            (by simp [CanonEs]) (by simp) (by simp) h1
+          simp only [List.nil_append, keys, List.map_nil] at b c d
+          simp only [Mapping.toValue, Canon, keys]
+          refine ⟨a, ?_, ?_⟩
+          · rw [b, c]; exact (flagsOf_idem _ _).symm
+          · rw [b, d]; exact (flagsOf_idem _ _).symm
+      | seq l =>
+        simp only [Reclass.interp] at h
+        cases h1 : Reclass.interpL n root l 0 st with
+        | error e => simp [h1] at h
+        | ok l' =>
+          simp only [h1, Except.ok.injEq, Prod.mk.injEq] at h
+          rw [← h.1]
+          simp only [WF] at hv
+          simp only [Canon]
+          exact ih.interpL root l 0 st l' hr hv h1
+      | vl l =>
+        simp only [Reclass.interp] at h
+        cases h1 : Reclass.interpVl n root l .null st with
+        | error e => simp [h1] at h
+        | ok x =>
+          simp only [h1] at h
+          simp only [WF] at hv
+          exact ih.interp _ _ _ _ _ hr
+            ((interpInv n).interpVl root l .null st x hr hv (by simp [WF]) h1) h
+      | null => simp only [Reclass.interp, Except.ok.injEq, Prod.mk.injEq] at h; rw [← h.1]; simp [Canon]
+      | bool _ => simp only [Reclass.interp, Except.ok.injEq, Prod.mk.injEq] at h; rw [← h.1]; simp [Canon]
+      | num _ => simp only [Reclass.interp, Except.ok.injEq, Prod.mk.injEq] at h; rw [← h.1]; simp [Canon]
+      | lit _ => simp only [Reclass.interp, Except.ok.injEq, Prod.mk.injEq] at h; rw [← h.1]; simp [Canon]
+    · -- interpL
+      intro root l idx st r hr hl h
+      cases l with
+      | nil => simp only [Reclass.interpL, Except.ok.injEq] at h; subst h; simp [CanonL]
+      | cons v vs =>
+        simp only [Reclass.interpL] at h
+        simp only [WFL] at hl
+        cases h1 : Reclass.interp n root v (st.pushListIndex idx) with
+        | error e => simp [h1] at h
+        | ok p =>
+          obtain ⟨x, st1⟩ := p
+          simp only [h1] at h
+          cases h2 : Reclass.interpL n root vs (idx + 1) st with
+          | error e => simp [h2] at h
+          | ok xs =>
+            simp only [h2, Except.ok.injEq] at h
+            subst h
+            exact ⟨ih.interp _ _ _ _ _ hr hl.1 h1, ih.interpL _ _ _ _ _ hr hl.2 h2⟩
+    · -- interpEs
+      intro root es ck ok st acc m hr hes hnd hca hck hok h
+      cases es with
+      | nil =>
+        simp only [Reclass.interpEs, Except.ok.injEq] at h
+        subst h
+        simp [hca, flagsOf, keys]
+      | cons e rest =>
+        obtain ⟨k, v⟩ := e
+        simp only [Reclass.interpEs] at h
+        simp only [WFEs] at hes
+        cases h1 : Reclass.interp n root v (st.pushMappingKey k) with
+        | error e => simp [h1] at h
+        | ok p =>
+          obtain ⟨v1, st1⟩ := p
+          simp only [h1] at h
+          have a := (interpInv n).interp _ _ _ _ _ hr hes.2.1 h1
+          have hk1 := ih.interp _ _ _ _ _ hr hes.2.1 h1
+          rw [flat_canon v1 st1 a.1 a.2 hk1] at h
+          simp only at h
+          have hstep := nodup_keys_step (by simpa [keys] using hnd : (keys acc.es ++ k :: keys rest).Nodup)
+          rw [insertImpl_fresh_eq acc v1 _ _ hes.1 hstep.1] at h
+          simp only at h
+          obtain ⟨b1, b2, b3, b4⟩ := ih.interpEs root rest ck ok st _ m hr hes.2.2
+            (by simpa [keys] using hstep.2) (canonEs_append.2 ⟨hca, hk1⟩)
+            (flag_subset hck) (flag_subset hok) h
+          refine ⟨b1, by simp [b2, keys], ?_, ?_⟩
+          · rw [b3]; exact flag_append (keys rest) (fun h => hstep.1 (hck k h))
+          · rw [b4]; exact flag_append (keys rest) (fun h => hstep.1 (hok k h))
+    · -- tokRender
+      intro root t st r st' hr h
+      simp only [Reclass.tokRender] at h
+      cases h1 : Reclass.tokResolve n root t st with
+      | error e => simp [h1] at h
+      | ok p =>
+        obtain ⟨v, st1⟩ := p
+        simp only [h1] at h
+        have hv := (interpInv n).tokResolve _ _ _ _ _ hr h1
+        cases t with
+        | ref parts => exact ih.interp _ _ _ _ _ hr hv h
+        | lit s =>
+          simp only at h
+          cases h2 : rawString v with
+          | error e => simp [h2] at h
+          | ok s' =>
+            simp only [h2, Except.ok.injEq, Prod.mk.injEq] at h
+            rw [← h.1]; simp [Canon]
+        | combined ts =>
+          simp only at h
+          cases h2 : rawString v with
+          | error e => simp [h2] at h
+          | ok s' =>
+            simp only [h2, Except.ok.injEq, Prod.mk.injEq] at h
+            rw [← h.1]; simp [Canon]
 
 end Reclass
